@@ -698,6 +698,19 @@ func productC05(tier string) {
 				}
 				reqs = append(reqs, &gmsg{kind: go9p.Tauth, a: 1, s1: []byte("u"), s2: []byte("a"), b: 7})
 				reqs = append(reqs, &gmsg{kind: go9p.Tauth, a: 3, s1: []byte("u"), s2: []byte("a"), b: 7})
+				// every request type that names a fid, with NOFID and with a number that was never bound
+				for _, fd := range []uint64{uint64(go9p.NOFID), uint64(go9p.NOFID) - 1, 77} {
+					reqs = append(reqs, &gmsg{kind: go9p.Twalk, a: fd, b: 9, names: randNames(1)},
+						&gmsg{kind: go9p.Twalk, a: fd, b: fd},
+						&gmsg{kind: go9p.Topen, a: fd, b: 0},
+						&gmsg{kind: go9p.Tcreate, a: fd, s1: []byte("n"), b: 0644, c: 0, s2: []byte("")},
+						&gmsg{kind: go9p.Tread, a: fd, b: 0, c: 1},
+						&gmsg{kind: go9p.Twrite, a: fd, b: 0, data: []byte{1}},
+						&gmsg{kind: go9p.Tclunk, a: fd}, &gmsg{kind: go9p.Tremove, a: fd}, &gmsg{kind: go9p.Tstat, a: fd},
+						&gmsg{kind: go9p.Twstat, a: fd, dir: genDir(4, false)},
+						&gmsg{kind: go9p.Tattach, a: fd, b: uint64(go9p.NOFID), s1: []byte("u"), s2: []byte("a"), c: 7},
+						&gmsg{kind: go9p.Tauth, a: fd, s1: []byte("u"), s2: []byte("a"), b: 7})
+				}
 				for _, m := range reqs {
 					for variant := 0; variant < 2; variant++ {
 						s := newSeqSession(msize, dotu == 1, auth == 1)
